@@ -58,6 +58,7 @@ Lemma gen_sub1 w : (gen w <= gen (sub1 w))%N.
 Proof. unfold sub1. destruct (0 <? cnt w)%N; simpl; try lia. destruct (dl w); unfold gmod; lia. Qed.
 Lemma gen_bump w : (gen w <= gen (bump w))%N. Proof. simpl; lia. Qed.
 Lemma gen_set_dl w b : (gen w <= gen (set_dl w b))%N. Proof. simpl; lia. Qed.
+Lemma gen_notify_le w w' : (gen w <= gen w')%N -> (gen w <= gen (notify w'))%N. Proof. auto. Qed.
 
 (* ------------------------------------------------------------------ projections through the ghost updates *)
 Lemma ids_post_ret c u o : ids (post_ret c u o) = ids c.
@@ -89,6 +90,15 @@ Proof. unfold cw_ret, add_fin. destruct two; reflexivity. Qed.
 Lemma fin1_cw_ret c t th i two : fin1 (cw_ret c t th i two) =
   if two then fin1 c else filter (fun p => Nat.eqb (snd p) i && negb (ouid_is (cur th) (fst p))) (cwsnap th) ++ fin1 c.
 Proof. unfold cw_ret, add_fin. destruct two; reflexivity. Qed.
+
+(* notify_all() only moves the ghost notify count *)
+Lemma cnt_notify w : cnt (notify w) = cnt w. Proof. reflexivity. Qed.
+Lemma dl_notify w : dl (notify w) = dl w. Proof. reflexivity. Qed.
+Lemma gen_notify w : gen (notify w) = gen w. Proof. reflexivity. Qed.
+Lemma word_N_notify w : word_N (notify w) = word_N w. Proof. reflexivity. Qed.
+Lemma upper_notify w : upper (notify w) = upper w. Proof. reflexivity. Qed.
+Lemma word_eqb_notify w o : word_eqb (notify w) o = word_eqb w o. Proof. reflexivity. Qed.
+#[export] Hint Rewrite cnt_notify dl_notify gen_notify word_N_notify upper_notify word_eqb_notify : c17proj.
 
 #[export] Hint Rewrite ids_post_ret threads_post_ret boxes_post_ret crashed_post_ret fin1_post_ret log_post_ret posted_post_ret
   ids_cw_ret threads_cw_ret boxes_cw_ret crashed_cw_ret posted_cw_ret log_cw_ret fin1_cw_ret : c17proj.
@@ -151,7 +161,7 @@ Lemma step_gen_monotone c t c' : step c t = Some c' -> ids_le (ids c) (ids c').
 Proof.
   intros H. unfold step in H. more_cases H. all: use_specs. all: proj_simpl.
   all: try apply ids_le_refl.
-  all: try (eapply ids_le_upd; eauto using gen_add1, gen_sub1, gen_bump, gen_set_dl).
+  all: try (eapply ids_le_upd; eauto using gen_add1, gen_sub1, gen_bump, gen_set_dl, gen_notify_le).
 Qed.
 
 Lemma step_crashed_mono c t c' : step c t = Some c' -> crashed c = true -> crashed c' = true.
@@ -162,15 +172,15 @@ Qed.
 (* ------------------------------------------------------------------ shape of the pending-operation stack *)
 Definition is_micro (it : item) : bool :=
   match it with
-  | IPostLock _ _ _ _ _ _ | IPostSub _ _ _ _ | IPostIntr _ _ _ | ICwLoad _ | ICwWait _ _ | ICwCas _ _
-  | IDlLoad _ | IDlCas _ _ | IDlAnd _ | IDlWLoad _ | IDlWWait _ _ | IPollWait _ | IPollLeave => true
+  | IPostLock _ _ _ _ _ _ | IPostSub _ _ _ _ | IPostIntr _ _ _ | ICwLoad _ | ICwWait _ _ | ICwBlk _ _ _ | ICwCas _ _
+  | IDlLoad _ | IDlCas _ _ | IDlAnd _ | IDlWLoad _ | IDlWWait _ _ | IDlWBlk _ _ _ | IPollWait _ | IPollLeave => true
   | _ => false
   end.
 
 (* what the thread knew when it decided to wait / to CAS in cancel_callback_and_wait(id) *)
 Definition micro_ok (pr : option idx) (m : item) : Prop :=
   match m with
-  | ICwWait i old => (2 <= cnt old)%N \/ (cnt old = 1%N /\ oidx_is pr i = false)
+  | ICwWait i old | ICwBlk i old _ => (2 <= cnt old)%N \/ (cnt old = 1%N /\ oidx_is pr i = false)
   | ICwCas i old => cnt old = 0%N \/ (cnt old = 1%N /\ oidx_is pr i = true)
   | _ => True
   end.
